@@ -110,7 +110,7 @@ def gen(R):
         steps = []
         children = []
         for j in range(R.int(2, 6)):
-            kind = R.weighted([(5, "sleep"), (3, "create"), (2, "wait"), (5, "add_cb"), (1, "remove_cb"), (1, "raise"), (1, "cancel_child"), (1, "executor"), (1, "cancel_self"), (2, "unique"), (1, "contest")])
+            kind = R.weighted([(5, "sleep"), (3, "create"), (2, "wait"), (5, "add_cb"), (1, "remove_cb"), (1, "raise"), (1, "cancel_child"), (1, "executor"), (1, "cancel_self"), (2, "unique"), (1, "contest"), (1, "usurp")])
             if kind == "sleep":
                 steps.append(["sleep", R.choice([1.0, 2.0, 4.0])])
             elif kind == "create":
@@ -146,6 +146,17 @@ def gen(R):
                 children.append(cp)
                 steps.append(["create", cp, [["cancel", sib], ["unique_km", f"own-{pid}"], ["sleep", 1.0]]])
                 steps.append(["sleep", 2.0])
+            elif kind == "usurp":
+                # this run owns two names; a child claims one of them (no kill_me): the run is ended by task.unique and
+                # both of its names have to be forgotten
+                if not any(s_[0] == "unique" and s_[1] == f"own-{pid}" for s_ in steps):
+                    steps.append(["unique", f"own-{pid}"])
+                steps.append(["unique", f"own2-{pid}"])
+                cp = f"{pid}c{len(children)}"
+                children.append(cp)
+                steps.append(["create", cp, [["unique", f"own-{pid}"], ["sleep", 1.0]]])
+                steps.append(["sleep", 2.0])
+                break
             elif kind == "cancel_self":
                 steps.append(["cancel_self"])
                 break
@@ -355,7 +366,7 @@ class C14(ModelCheck):
     rule = (
         "task graphs of 2-4 top-level runs (service calls and event triggers) whose programs sleep, create child "
         "tasks (task.create), wait for them (task.wait + done/cancelled/result), add and remove done-callbacks on "
-        "themselves and their children, cancel a child or themselves, raise, return and call task.executor; one fault "
+        "themselves and their children, cancel a child or themselves, get ended by a child's task.unique claim while owning two names, raise, return and call task.executor; one fault "
         "(task.cancel of a chosen run at a chosen virtual instant, i.e. at one of its suspension points) is injected and "
         "the same graph is also run fault-free. Oracle: runs unrelated to the victim have identical timestamped logs "
         "with and without the fault; every registered-and-not-removed done-callback runs exactly once with its "
